@@ -33,6 +33,18 @@ ANCHORED = [
     'metamath/translate.py',
 ]
 
+
+def scanned_files(pkg):
+    """the five anchored files plus every module of the package the converter lives in (metamath/converter/*.py:
+    scope.py, representation.py, vardict.py, ... — whatever is there now): the converter's results are computed there"""
+    files = list(ANCHORED)
+    d = os.path.join(pkg, 'metamath', 'converter')
+    for f in sorted(os.listdir(d)):
+        rel = 'metamath/converter/' + f
+        if f.endswith('.py') and rel not in files and os.path.getsize(os.path.join(d, f)) > 0:
+            files.append(rel)
+    return files
+
 ORDERED_CALLS = {'list', 'tuple', 'sorted', 'reversed', 'range', 'enumerate', 'zip', 'map', 'filter', 'str', 'dict',
                  'bytes', 'bytearray'}
 SET_CALLS = {'set', 'frozenset'}
@@ -334,8 +346,20 @@ class Scanner(ast.NodeVisitor):
             k = self.kind(node.args[0])
             if k in ('set', 'fs', 'unordered-dict'):
                 self.add(f'call:join:{k}', node.args[0], 'unordered')
-        if isinstance(f, ast.Attribute) and name == 'pop' and not node.args and self.kind(f.value) == 'set':
-            self.add('call:set.pop', f.value, 'unordered')
+        if isinstance(f, ast.Attribute) and name == 'pop' and not node.args:
+            # set.pop() removes an ARBITRARY element: an order-dependent use that is not a loop.
+            # (list.pop() is positional; dict.pop needs a key.)  Unknown receivers fail closed.
+            rk = self.kind(f.value)
+            if rk in ('set', 'unordered-dict', 'fs'):
+                self.add('call:set.pop', f.value, 'unordered')
+            elif rk != 'ordered':
+                self.add('call:pop-on-untyped-receiver', f.value, 'unknown')
+        if isinstance(f, ast.Attribute) and name == 'popitem':
+            rk = self.kind(f.value)
+            if rk in ('set', 'unordered-dict', 'fs'):
+                self.add('call:dict.popitem', f.value, 'unordered')
+            elif rk != 'ordered':
+                self.add('call:popitem-on-untyped-receiver', f.value, 'unknown')
         if isinstance(f, ast.Attribute) and name in ('extend', 'update') and node.args:
             # list.extend(set) / dict.update(set-ordered dict): order flows into an ordered container
             k = self.kind(node.args[0])
@@ -346,6 +370,15 @@ class Scanner(ast.NodeVisitor):
             if isinstance(a, ast.Starred) and self.kind(a.value) in ('set', 'fs', 'unordered-dict'):
                 self.add('star-args', a.value, 'unordered')
         self.generic_visit(node)
+
+    def literal_with_star(self, node):
+        for e in node.elts:
+            if isinstance(e, ast.Starred) and self.kind(e.value) in ('set', 'fs', 'unordered-dict'):
+                self.add('star-in-literal', e.value, 'unordered')
+        self.generic_visit(node)
+
+    visit_Tuple = literal_with_star
+    visit_List = literal_with_star
 
     def visit_FormattedValue(self, node):
         if self.kind(node.value) in ('set', 'fs', 'unordered-dict'):
@@ -388,7 +421,7 @@ def scan(repo):
     pkg = os.path.join(repo, 'generation', 'src', 'proof_generation')
     env = gather(pkg)
     sites, nondet = [], []
-    for rel in ANCHORED:
+    for rel in scanned_files(pkg):
         src = open(os.path.join(pkg, rel)).read()
         tree = ast.parse(src)
         sc = Scanner(env, rel, src, gather(pkg, only=rel))
